@@ -134,6 +134,22 @@ def main(argv=None) -> int:
                 finish(ctx, t0, seed, floors, st)
                 print(f"ANALYSIS-ERROR property={pid}: checker self-test failed: {st['failed'][:5]}")
                 return 2
+            from . import renamefuzz
+
+            rn = renamefuzz.run_for(pid)
+            st["rename_robustness"] = rn
+            if rn.get("failed"):
+                finish(ctx, t0, seed, floors, st)
+                print(f"ANALYSIS-ERROR property={pid}: the verdict depends on the spelling of a local variable: {rn['failed'][:5]}")
+                return 2
+            from . import equivfuzz
+
+            eq = equivfuzz.run_for(pid)
+            st["equivalence_robustness"] = eq
+            if eq.get("failed"):
+                finish(ctx, t0, seed, floors, st)
+                print(f"ANALYSIS-ERROR property={pid}: the verdict changes under a behaviour-preserving rewrite: {eq['failed'][:5]}")
+                return 2
         return finish(ctx, t0, seed, floors, st)
     except AnalysisError as exc:
         print(f"ANALYSIS-ERROR property={pid}: {exc}")
